@@ -1,4 +1,5 @@
 import Nstd.Avl.LemmasStable
+import Nstd.Avl.LemmasInvariance
 /-
   Property C01 — Map and MultiMap stay sorted, complete and logarithmically deep.
 
@@ -342,6 +343,31 @@ theorem ids_stable_step {multi : Bool} {s : St} (hr : Reach multi s) (op : Op) (
   rw [hm] at this
   exact this
 
+theorem step'_map {f : Int → Int} (hf : Mono f) (s : St) (op : Op) :
+    step' (mapSt f s) (mapOp f op) = mapSt f (step' s op) := by
+  unfold step'
+  rw [step_map hf]
+  cases step s op <;> rfl
+
+/-- **Order invariance** (towards arbitrary key types): the model only looks at the outcome of key
+    comparisons.  For every order embedding `f` of the keys (strictly monotone `Int → Int`), the
+    run on the relabelled history is the relabelled run — same tree shape, stored fields, item ids,
+    prev/next list and free list … -/
+theorem order_invariance {f : Int → Int} (hf : Mono f) (multi : Bool) (ops : List Op) :
+    run multi (ops.map (mapOp f)) = mapSt f (run multi ops) := by
+  unfold run
+  suffices h : ∀ s, (ops.map (mapOp f)).foldl step' (mapSt f s) = mapSt f (ops.foldl step' s) from h (St.init multi)
+  induction ops with
+  | nil => intro s; rfl
+  | cons op ops ih => intro s; simp only [List.map_cons, List.foldl_cons]; rw [step'_map hf, ih]
+
+/-- … and every op then returns the same value with the same number of key comparisons. -/
+theorem order_invariance_out {f : Int → Int} (hf : Mono f) (multi : Bool) (ops : List Op) (op : Op) :
+    (step (run multi (ops.map (mapOp f))) (mapOp f op)).map (fun r => r.2) =
+      (step (run multi ops) op).map (fun r => r.2) := by
+  rw [order_invariance hf, step_map hf]
+  cases step (run multi ops) op <;> rfl
+
 /-- **MultiMap stability**: a plain insert puts the entry behind every entry with a key `≤ k`
     (in particular behind all equal keys inserted before) and in front of every larger key. -/
 theorem multi_insert_stable (ops : List Op) (k v : Int) :
@@ -382,7 +408,10 @@ theorem multi_insert_stable (ops : List Op) (k v : Int) :
   OPEN (not proved; stated here so that nobody reads more into the theorems above):
 
   * Keys are `Int`.  The generalisation "for every key type whose `<`/`>` form a strict total
-    order" (DESIGN.md C01/X) is not stated: the model is monomorphic.
+    order" (DESIGN.md C01/X) is not stated: the model is monomorphic.  `order_invariance` proves
+    the crux (results depend only on the relative order of the keys, for every order embedding
+    `Int → Int`); what is missing is a `K`-typed copy of the model and the (classical) fact that the
+    finitely many keys of a history embed monotonically into `Int`.
        theorem find_cost_log_any_order {K} [LinearOrder K] … : (analogue of find_cost_log)
   * The free-list discipline (LIFO reuse of item addresses, blocks of 4) is modelled (`St.alloc`,
     invariant: ids distinct and disjoint from the free list); which id an insert reuses is not
@@ -411,6 +440,10 @@ example : IsLogBound 7 4 := by
 /-- removing the two-child root 4 of `sampleOps`' tree keeps the ids of all other items -/
 example : (run false (sampleOps.take 8)).t.inorder.map (fun e => e.1) = [0, 2, 7, 3, 6, 1, 5, 4] ∧
     (run false sampleOps).t.inorder.map (fun e => e.1) = [0, 2, 7, 6, 1, 5, 4] := by decide +kernel
+/-- an order embedding that is not a translation: `k ↦ 3k - 7` -/
+example : Mono (fun k => 3 * k - 7) := by intro a b; simp only; constructor <;> intro h <;> omega
+example : abs (run false (sampleOps.map (mapOp (fun k => 3 * k - 7)))) =
+    [(-4, 10), (-1, 20), (2, 30), (8, 50), (11, 60), (14, 70), (17, 80)] := by decide +kernel
 example : abs (run true [.insert 5 1, .insert 5 2, .insert 3 9, .insert 5 3]) = [(3, 9), (5, 1), (5, 2), (5, 3)] := by
   decide +kernel
 example : ∃ r, step (run true [.insert 5 1, .insert 5 2, .insert 5 3]) (.count 5) = some r ∧ r.2.ret = .num 3 :=
